@@ -5,12 +5,17 @@ import (
 	"fmt"
 	"os"
 	"runtime"
+	"runtime/debug"
+	"runtime/pprof"
 	"strconv"
 
 	"symgo/sym"
 )
 
 func main() {
+	if os.Getenv("GOGC") == "" {
+		debug.SetGCPercent(400)
+	}
 	if len(os.Args) < 2 {
 		fmt.Println("usage: symgo run|replay [flags]")
 		os.Exit(2)
@@ -33,6 +38,15 @@ func main() {
 		fs.IntVar(&o.MaxPaths, "max-paths", 0, "stop after this many paths")
 		fs.Parse(os.Args[2:])
 		o.Seed, _ = strconv.Atoi(envOr("VERIF_SEED", "1"))
+		if pf := os.Getenv("SYMGO_CPUPROFILE"); pf != "" {
+			f, err := os.Create(pf)
+			if err == nil {
+				pprof.StartCPUProfile(f)
+			}
+			code := sym.RunProperty(o)
+			pprof.StopCPUProfile()
+			os.Exit(code)
+		}
 		os.Exit(sym.RunProperty(o))
 	case "replay":
 		fs := flag.NewFlagSet("replay", flag.ExitOnError)
